@@ -201,6 +201,18 @@ def sh_push_body_trailers(S):
     S.headers(psid, TRAILERS, fin=True)
 
 
+def sh_push_content_length(S):
+    # the pushed response declares its length: the receiver's byte count must not depend on how the
+    # DATA frames were cut
+    S.prime()
+    sid, h = _open(S)
+    psid = S.push(sid, PUSHREQ)
+    S.headers(sid, h, fin=True)
+    S.headers(psid, _cl(RESP, 9))
+    S.data(psid, b"pushed")
+    S.data(psid, b"abc", fin=True)
+
+
 def sh_push_after_body(S):
     S.prime()
     sid, h = _open(S)
@@ -474,9 +486,10 @@ def sh_cut_wt(S):
 
 class Shape:
     def __init__(self, fn, cls, roles=("client", "server"), quick=True, wt=False, pair=False,
-                 pair_quick=False):
+                 pair_quick=False, name=None, rt_only=False):
         self.fn = fn
-        self.name = fn.__name__[3:]
+        self.name = name or fn.__name__[3:]
+        self.rt_only = rt_only  # round trip only (size sweeps): no splitting / interleaving enumeration
         self.cls = cls  # normalised input class (goes into signatures)
         self.roles = roles  # role of the SENDER
         self.quick = quick
@@ -503,6 +516,7 @@ SHAPES = [
     Shape(sh_informational, "interim_then_final_response", roles=("server",)),
     Shape(sh_push, "push_promise_and_push_stream", roles=("server",)),
     Shape(sh_push_body_trailers, "push_stream_body_and_trailers", roles=("server",)),
+    Shape(sh_push_content_length, "push_stream_content_length", roles=("server",)),
     Shape(sh_push_after_body, "push_promise_and_push_stream", roles=("server",), quick=False),
     Shape(sh_push_promise_last, "push_promise_last_frame", roles=("server",), quick=False),
     Shape(sh_dyn, "dynamic_table", pair=True),
@@ -535,6 +549,54 @@ SHAPES = [
     Shape(sh_cut_push_stream, "uni_stream_header_cut_by_fin", roles=("server",), quick=False),
     Shape(sh_cut_wt, "webtransport_header_cut_by_fin", roles=("client",), wt=True, quick=False),
 ]
+
+
+# ---- size sweeps: "for every body size and header list".  Frame lengths are variable-length integers:
+# the interesting sizes are around 63/64 and 16383/16384 bytes of frame payload.
+def _mk_body(n):
+    def fn(S):
+        sid, h = _open(S)
+        S.headers(sid, h)
+        S.data(sid, bytes((i * 7 + n) & 0xFF for i in range(n)), fin=True)
+    return fn
+
+
+def _mk_header_value(n):
+    def fn(S):
+        sid, h = _open(S)
+        S.headers(sid, tuple(h) + ((b"x-pad", b"v" * n),))
+        S.data(sid, b"ok", fin=True)
+    return fn
+
+
+def _mk_trailer_value(n):
+    def fn(S):
+        sid, h = _open(S)
+        S.headers(sid, h)
+        S.data(sid, b"ok")
+        S.headers(sid, ((b"x-trailer", bytes(0x61 + (i % 26) for i in range(n))),), fin=True)
+    return fn
+
+
+def _mk_push_value(n):
+    def fn(S):
+        S.prime()
+        sid, h = _open(S)
+        psid = S.push(sid, PUSHREQ + ((b"x-pad", b"p" * n),))
+        S.headers(sid, h, fin=True)
+        S.headers(psid, RESP, fin=True)
+    return fn
+
+
+SIZE_SWEEP = list(range(0, 140)) + [16381, 16382, 16383, 16384, 16385]
+for _n in SIZE_SWEEP:
+    SHAPES.append(Shape(_mk_body(_n), "size_sweep_body", name="size_body_%d" % _n, rt_only=True))
+    if _n < 140:
+        SHAPES.append(Shape(_mk_header_value(_n), "size_sweep_headers", name="size_header_%d" % _n, rt_only=True))
+        SHAPES.append(Shape(_mk_trailer_value(_n), "size_sweep_trailers", name="size_trailer_%d" % _n, rt_only=True,
+                            quick=_n % 2 == 0))
+        SHAPES.append(Shape(_mk_push_value(_n), "size_sweep_push_promise", name="size_push_%d" % _n, rt_only=True,
+                            roles=("server",), quick=_n % 2 == 1))
 SHAPE_BY_NAME = {s.name: s for s in SHAPES}
 
 _SCEN = {}
@@ -1119,7 +1181,7 @@ def plan_items(ctx):
     shapes = [s for s in SHAPES if (s.quick or not quick)]
     extra = []
     if quick:
-        rest = [s for s in SHAPES if not s.quick]
+        rest = [s for s in SHAPES if not s.quick and not s.rt_only]
         n_slices = 6
         extra = [s for i, s in enumerate(rest) if i % n_slices == ctx.seed % n_slices]
     items_rt, items_bfs, items_inter = [], [], []
@@ -1128,7 +1190,7 @@ def plan_items(ctx):
         for role in sh.roles:
             sc = scenario(sh.name, role)
             items_rt.append(("rt", sh.name, role))
-            if sc.get("error"):
+            if sc.get("error") or sh.rt_only:
                 continue
             for x in sc["order"]:
                 if x == "d":
